@@ -71,6 +71,46 @@ def is_str_expr(e, fn, mod, visiting=frozenset()):
     return False
 
 
+def is_num_expr(e, fn, visiting=frozenset()):
+    """the expression is a finite number on every definition (a conversion of it is not a conversion of text)"""
+    if isinstance(e, ast.Constant):
+        return isinstance(e.value, (int, float)) and not isinstance(e.value, bool)
+    if isinstance(e, ast.BinOp) and isinstance(e.op, ast.Mod) and isinstance(e.left, ast.Constant) and isinstance(e.left.value, str):
+        # '%.2f' % number  ->  text of a number; float() of it cannot fail
+        import re as _re
+        specs = _re.findall(r'%[#0\- +]*\d*(?:\.\d+)?([a-zA-Z%])', e.left.value)
+        args = e.right.elts if isinstance(e.right, ast.Tuple) else [e.right]
+        return specs in (['f'], ['d']) and _re.fullmatch(r'%[#0\- +]*\d*(?:\.\d+)?[fd]', e.left.value) is not None \
+            and len(args) == 1 and is_num_expr(args[0], fn, visiting)
+    if isinstance(e, ast.BinOp) and isinstance(e.op, (ast.Add, ast.Sub, ast.Mult, ast.Div, ast.FloorDiv, ast.Mod)):
+        return is_num_expr(e.left, fn, visiting) and is_num_expr(e.right, fn, visiting)
+    if isinstance(e, ast.UnaryOp) and isinstance(e.op, (ast.USub, ast.UAdd)):
+        return is_num_expr(e.operand, fn, visiting)
+    if isinstance(e, ast.Call) and isinstance(e.func, ast.Name) and e.func.id in ('int', 'float', 'round', 'abs', 'len'):
+        return True          # the call itself is the (possibly guarded) conversion; its result is a number
+    if isinstance(e, ast.Name):
+        if e.id in visiting:
+            return True
+        from ..cfg import reaching_defs
+        try:
+            rd = reaching_defs(fn, e.id, e)
+        except AttributeError:
+            return False
+        if not rd or None in rd:
+            return False
+        for d in rd:
+            if isinstance(d, ast.Assign) and all(isinstance(t, ast.Name) for t in d.targets):
+                if not is_num_expr(d.value, fn, visiting | {e.id}):
+                    return False
+            elif isinstance(d, ast.AugAssign) and isinstance(d.target, ast.Name):
+                if not is_num_expr(d.value, fn, visiting | {e.id}):
+                    return False
+            else:
+                return False
+        return True
+    return False
+
+
 def roles(fn):
     """names of the quantities of the timed arm, found by their definitions (not by their spelling)"""
     r = {}
@@ -127,6 +167,8 @@ def run(ctx, repo):
     ctx.rule('R3', 'the PAT_PERF filter precedes numeric parsing on the non-custom arms')
     ctx.rule('R4', "every field record formatted '%0.2f' is accepted by PAT_PERF (records are enterable)")
     ctx.rule('R6', 'the documented speed limits (11 m/s up to 400 m, 10 m/s beyond, 0.5 m/s minimum for all) are raise-guards; the slow limit is independent of the distance class')
+    ctx.rule('R7', "the value checked is the value printed: a float returned through '%.Nf' is rounded to N decimals before the guards, the "
+                   'derived quantities (duration, speed) and the format read it; raw guards have a counterpart after the rounding')
     ctx.rule('R5', 'the timed arm refuses seconds >= 60 under minutes and minutes >= 60 under hours with errorKlass')
     # ---- R1
     n_conv = 0
@@ -136,6 +178,8 @@ def run(ctx, repo):
             a = c.args[0]
             if isinstance(a, ast.Constant):
                 continue
+            if is_num_expr(a, fn):
+                continue            # conversion of a number, not of text: cannot raise ValueError
             n_conv += 1
             k = unparse(c)
             occ[k] = occ.get(k, 0) + 1
@@ -274,6 +318,51 @@ def run(ctx, repo):
                             "the %s %s record %s is not accepted by PAT_PERF (three integer digits): the record mark itself "
                             'cannot be entered' % (g, ev, txt), txt)
     ctx.floor('field records checked', n_rec, 18)
+    # the record that bounds a field mark is the one of the athlete's gender: evaluate the lookup over the finite gender domain
+    from .. import fold as _fold
+    env_u, folder_u = repo.folded(UTILS)
+    fer = env_u.get('field_event_record')
+    if not isinstance(fer, _fold.FuncConst):
+        raise AnalysisError('anchor vanished: field_event_record')
+    F2 = _fold.Folder(importer=folder_u.importer)
+    bad = []
+    n_lookup = 0
+    for g_in, g_key in (('m', 'm'), ('f', 'f'), ('M', 'm'), ('F', 'f'), ('all', 'all'), ('x', 'all')):
+        for ev in sorted(recs.get('m', {})):
+            n_lookup += 1
+            try:
+                got = F2.call(fer, [ev, g_in], {})
+            except _fold.Unfoldable as e:
+                raise AnalysisError('field_event_record is not evaluable over the gender domain: %s' % e)
+            except _fold._Raise:
+                got = '<raises>'
+            except Exception as e:
+                got = '<%s>' % type(e).__name__
+            want = recs.get(g_key, {}).get(ev)
+            if got != want:
+                bad.append((ev, g_in, got, want))
+    if bad:
+        ctx.finding('R4', '%s::field_event_record::record by gender' % UTILS, UTILS, fer.node.lineno,
+                    'field_event_record(%r, %r) gives %r; the %s record is %r (%d of %d lookups differ): marks beyond the athlete\'s own record '
+                    'limit are accepted' % (bad[0][0], bad[0][1], bad[0][2], bad[0][1], bad[0][3], len(bad), n_lookup), list(bad[0]))
+    else:
+        ctx.ok('R4', 'field_event_record returns the record of the given gender for all %d (event, gender) lookups' % n_lookup)
+    # multi-events: the returned text is str(int(...))
+    for n in ast.walk(fn):
+        if isinstance(n, ast.If) and 'MULTI_EVENTS' in ast.unparse(n.test):
+            rets = [r for st in n.body for r in ast.walk(st) if isinstance(r, ast.Return)]
+            for r in rets:
+                v = r.value
+                okint = False
+                if isinstance(v, ast.Call) and call_name(v) == 'str' and v.args and isinstance(v.args[0], ast.Name):
+                    defs = [a.value for a in ast.walk(n) if isinstance(a, ast.Assign) and any(isinstance(t, ast.Name) and t.id == v.args[0].id for t in a.targets)]
+                    okint = bool(defs) and all(isinstance(d, ast.Call) and isinstance(d.func, ast.Name) and d.func.id == 'int' for d in defs)
+                if okint:
+                    ctx.ok('R2', 'multi-events: the score is parsed with int()')
+                else:
+                    ctx.finding('R2', '%s::%s::multi-event score not an integer' % (UTILS, FN), UTILS, r.lineno,
+                                'the multi-events arm returns %s, whose value is not produced by int(): a decimal text such as 58.75 (or 5,875) '
+                                'is accepted and returned instead of an integer below 10000' % unparse(v), "('DEC', '58.75')")
     # ---- R5 sexagesimal guard on the timed arm
     found_sec = found_min = False
     for n in ast.walk(fn):
@@ -292,3 +381,15 @@ def run(ctx, repo):
                     'no guard refuses %s on the timed arm: a text such as 81:93 is accepted and returned' % (
                         ' / '.join(x for x, f in (('seconds >= 60', found_sec), ('minutes >= 60 under hours', found_min)) if not f)),
                     "('MAR', '81:93')")
+
+    # ---- R7 checked value = printed value (re-validation of a returned value)
+    from .. import printed
+    probs, n_fmt = printed.analyse(fn)
+    ctx.count('float formats returned by %s' % FN, n_fmt)
+    ctx.floor('float formats returned', n_fmt, 2)
+    for rule, v, line, msg, key in probs:
+        ctx.finding('R7', '%s::%s::%s %s' % (UTILS, FN, rule, key), UTILS, line, msg,
+                    {'P1': "100 m '9.094' -> '9.09' -> refused as too fast; 800 m '1:59.996' -> '1:60' -> refused"}.get(rule))
+    if not probs:
+        ctx.ok('R7', '%d float formats: the formatted values are rounded before every guard and derived quantity on the paths to the format' % n_fmt)
+
